@@ -1,3 +1,5 @@
+use std::cmp::Ordering;
+
 use crate::{BoundingRect, Line, PointF, Polygon, RotatedRect, Vec2};
 
 /// Return the sorted subset of points from `poly` that form a convex hull
@@ -22,40 +24,46 @@ pub fn convex_hull(poly: &[PointF]) -> Vec<PointF> {
         }
     };
 
-    // Compute cosine of angle between the vector `p - min_point` and the X axis.
-    let angle = |p: PointF| {
-        if p == min_point {
-            // Ensure `min_point` appears first in the `sorted_points` list.
-            f32::MIN
-        } else {
-            let x_axis = Vec2::from_yx(0., 1.);
-            min_point.vec_to(p).normalized().dot(x_axis)
-        }
+    // Cross product of the vectors `o -> a` and `o -> b`, evaluated in f64.
+    // The differences and products of f32 coordinates are exact in f64, so
+    // the sign is reliable even for collinear and nearly collinear points.
+    // Rounded f32 values (eg. cosines of angles) are not: they can order
+    // collinear points inconsistently and make the scan drop a hull vertex.
+    let cross = |o: PointF, a: PointF, b: PointF| -> f64 {
+        let (ax, ay) = (a.x as f64 - o.x as f64, a.y as f64 - o.y as f64);
+        let (bx, by) = (b.x as f64 - o.x as f64, b.y as f64 - o.y as f64);
+        ax * by - ay * bx
+    };
+    let dist_sq = |p: PointF| -> f64 {
+        let (dx, dy) = (p.x as f64 - min_point.x as f64, p.y as f64 - min_point.y as f64);
+        dx * dx + dy * dy
     };
 
-    // Sort points by angle between `point - min_point` and X axis. When
-    // multiple points form the same angle, keep only one furthest from
-    // `min_point`.
-    let mut sorted_points: Vec<(PointF, f32)> = poly.iter().map(|&p| (p, angle(p))).collect();
-    sorted_points.sort_by(|(a_pt, a_angle), (b_pt, b_angle)| {
-        if a_angle == b_angle {
-            let a_dist = min_point.vec_to(*a_pt).length();
-            let b_dist = min_point.vec_to(*b_pt).length();
-            a_dist.total_cmp(&b_dist)
+    // Sort points by angle between `point - min_point` and X axis, starting
+    // from the negative X axis. No point lies below `min_point`, so the sign
+    // of the cross product orders two points by angle. When multiple points
+    // form the same angle, sort them by distance from `min_point` so that the
+    // scan below keeps only the furthest one. `min_point` itself sorts first.
+    let mut sorted_points: Vec<PointF> = poly.to_vec();
+    sorted_points.sort_by(|&a, &b| {
+        let turn = cross(min_point, a, b);
+        if turn > 0. {
+            Ordering::Less
+        } else if turn < 0. {
+            Ordering::Greater
         } else {
-            a_angle.total_cmp(b_angle)
+            dist_sq(a).total_cmp(&dist_sq(b))
         }
     });
-    sorted_points.dedup_by_key(|(a_point, _)| *a_point);
+    sorted_points.dedup();
 
     // Visit sorted points and keep the sequence that can be followed without
     // making any clockwise turns.
-    for &(p, _) in sorted_points.iter() {
+    for &p in sorted_points.iter() {
         while hull.len() >= 2 {
             let [prev2, prev] = [hull[hull.len() - 2], hull[hull.len() - 1]];
-            let ac = prev2.vec_to(p);
-            let bc = prev.vec_to(p);
-            let turn_dir = ac.cross_product_norm(bc);
+            // Same sign as `prev2.vec_to(p).cross_product_norm(prev.vec_to(p))`.
+            let turn_dir = cross(p, prev2, prev);
             if turn_dir > 0. {
                 // Last three points form a counter-clockwise turn.
                 break;
